@@ -440,11 +440,14 @@ def boxcount(run, fx):
             for x in list(nodes):          # a size computed into a const local first
                 if x['k'] == 'DeclRefExpr' and x.get('vid') in ctor.const_init:
                     nodes += list(ctor.walk(ctor.const_init[x['vid']]))
-            refs = [x for x in nodes if x['k'] == 'DeclRefExpr' and x.get('vid') is not None and (x.get('t') or '').replace('const ', '') == 'int' and x.get('pi') is None]
+            from .cfg import int_type as _it
+            refs = [x for x in nodes if x['k'] == 'DeclRefExpr' and x.get('vid') is not None and _it((x.get('t') or '').replace('const ', '')) and x.get('pi') is None
+                    and x.get('dk') == 'Var' and not (x.get('d') or '').startswith('graphite2::')]
             if refs:
                 pool = (e, refs[0]['vid'], ctor.render(refs[0]))
     calls = calls_in(ctor, 'graphite2::GlyphCache::Loader::read_glyph')
-    pidx = [k for k, p_ in enumerate(rg.f['params']) if '*' in p_['t'] and 'int' in p_['t']]
+    from .cfg import int_type as _it2
+    pidx = [k for k, p_ in enumerate(rg.f['params']) if p_['t'].rstrip().endswith('*') and _it2(p_['t'].rstrip()[:-1].strip().replace('const ', ''))]
     if pool is None or len(calls) < 2 or len(pidx) != 1:
         run.broken('LOADERSIB', inst, 'preload pool allocation / read_glyph calls / count out-parameter not recognised (%s, %d calls)' % (pool is not None, len(calls)), ctor.where())
         return
@@ -462,6 +465,17 @@ def boxcount(run, fx):
         return
     accum = all(e['op'] == '+=' for e in stores)
     pe, V, vname = pool
+    # the total runs over every glyph of the font (up to 65535 glyphs, up to 16 sub-boxes each): it needs more than 16 bits
+    vt = [x.get('t') for x in ctor.walk(pe['args'][0]) if x['k'] == 'DeclRefExpr' and x.get('vid') == V]
+    for d_ in [d for _, d in ctor.elements() if d['k'] == 'DeclStmt']:
+        for x in d_.get('decls', []):
+            if x.get('vid') == V:
+                vt = [x.get('t')]
+    wt = _it2((vt[0] if vt else '').replace('const ', ''))
+    if wt and wt[0] < 32:
+        run.violated('LOADERSIB', inst, ctor.loc(pe), 'the sub-box total `%s` that sizes the preload pool is a %d-bit `%s`: a font with more than 65535 sub-boxes in all (4096 glyphs with 16 each) wraps it, the pool '
+                     'is too small for what read_box writes (or, at exactly 65536, no box is read at all), while a lazily loading face counts per glyph and is unaffected' % (vname, wt[0], vt[0]))
+        return
 
     def target(e):
         a = ctor.strip_all_casts(ctor.N(e['args'][pi]))
